@@ -194,7 +194,21 @@ def check_class(pane, words, style, res):
             if cls2.from_data({canon(words, s): 4}) != cls2(**{x: 4}):
                 core.add_violation(res, {'law': 'class_in_multi', 'style': s, 'nwords': nw},
                                    f"in_rename=all styles, field {x!r}: key {canon(words, s)!r} not bound", cell, cost=nw)
-        res['validated'] += 3 + len(STYLES)
+        # a field that overrides its OUTPUT name only: it is still read under the class style's canonical name
+        cls3 = type('R3', (pane.PaneBase,), {'__annotations__': {x: int}, x: pane.field(out_name='login')}, rename=style)
+        res['transitions'] += 2
+        res['evals'] += 2
+        try:
+            got3 = getattr(cls3.from_data({want: 5}), x)
+        except Exception as e3:  # noqa
+            got3 = f"{type(e3).__name__}: {core.sstr(e3, 80)}"
+        if got3 != 5:
+            core.add_violation(res, {'law': 'class_in_with_out_name', 'style': style, 'nwords': nw},
+                               f"class rename={style!r}, field {x!r} = field(out_name='login'): the canonical key {want!r} was not bound ({got3!r})", cell, cost=nw)
+        elif cls3(**{x: 5}).into_data() != {'login': 5}:
+            core.add_violation(res, {'law': 'class_out_name', 'style': style, 'nwords': nw},
+                               f"class rename={style!r}, field {x!r} = field(out_name='login'): into_data gave {cls3(**{x: 5}).into_data()!r}", cell, cost=nw)
+        res['validated'] += 4 + len(STYLES)
     except Exception as e:  # noqa
         core.add_violation(res, {'law': 'class', 'style': style, 'nwords': nw, 'exc': type(e).__name__},
                            f"class path for field {x!r} rename={style!r} raised {type(e).__name__}: {e}", cell, cost=nw)
